@@ -184,11 +184,12 @@ class Stack:
         Gets the stack trace from
         the entire stack pile.
         """
-        start_index = (
-            0 if limit == -1 or len(stack_pile) <= limit else len(stack_pile) - limit
-        )
+        # A stack that has not started a line yet (a loop iteration whose counter
+        # or condition is still being evaluated) has no location of its own.
+        live = [i for i in stack_pile if i.current_line is not None]
+        start_index = 0 if limit == -1 or len(live) <= limit else len(live) - limit
         stacktrace: list[StackTraceNode] = [
-            stack_pile[i].return_stack() for i in range(start_index, len(stack_pile))
+            live[i].return_stack() for i in range(start_index, len(live))
         ]
         return stacktrace
 
